@@ -203,6 +203,7 @@ func (s *Runner) RunOnRange(ctx context.Context, startKey, endKey []byte) error 
 
 	// Iterate all regions and send each region's range as a task to the workers.
 	key := startKey
+	var dispatchErr error
 Loop:
 	for {
 		select {
@@ -246,6 +247,9 @@ Loop:
 		select {
 		case taskCh <- task:
 		case <-ctx.Done():
+			// The rest of the range is not dispatched. If no worker failed (the caller cancelled the
+			// context itself) this must not be reported as a finished range task.
+			dispatchErr = ctx.Err()
 			break Loop
 		}
 		metrics.TiKVRangeTaskPushDuration.WithLabelValues(s.name).Observe(time.Since(pushTaskStartTime).Seconds())
@@ -272,6 +276,16 @@ Loop:
 				zap.Error(w.err))
 			return errors.WithStack(w.err)
 		}
+	}
+	if dispatchErr != nil {
+		logutil.Logger(ctx).Info("range task canceled",
+			zap.String("name", s.identifier),
+			zap.String("startKey", redact.Key(startKey)),
+			zap.String("endKey", redact.Key(endKey)),
+			zap.Duration("cost time", time.Since(startTime)),
+			zap.Int("completed regions", s.CompletedRegions()),
+			zap.Error(dispatchErr))
+		return errors.WithStack(dispatchErr)
 	}
 
 	logutil.Logger(ctx).Info("range task finished",
